@@ -77,6 +77,10 @@ def _wcall(job):
         return ("err", "".join(traceback.format_exception(type(e), e, e.__traceback__))[-4000:])
 
 
+def _wchunk(jobs):
+    return [_wcall(j) for j in jobs]
+
+
 class HarnessError(Exception):
     pass
 
@@ -110,15 +114,17 @@ class Engine:
         job = [(func.__module__, func.__name__, it) for it in items]
         cs = chunksize or max(1, min(64, len(job) // (self.workers * 8) or 1))
         out = []
-        it = self._pool().imap(_wcall, job, cs)
-        for _ in range(len(job)):
+        chunks = [job[i:i + cs] for i in range(0, len(job), cs)]
+        it = self._pool().imap(_wchunk, chunks, 1)
+        for _ in range(len(chunks)):
             try:
-                st, r = it.next(timeout=1800)
+                res = it.next(timeout=1800)
             except mp.TimeoutError:
                 raise HarnessError("worker pool made no progress for 1800 s (lost worker?)")
-            if st == "err":
-                raise HarnessError(r)
-            out.append(r)
+            for st, r in res:
+                if st == "err":
+                    raise HarnessError(r)
+                out.append(r)
         return out
 
     def local_ctx(self):
